@@ -46,7 +46,7 @@ GEN_TIES = {
     "C02": ["chunks_iter_eq", "lru_iter_eq", "C19_source_chunks", "C02_source_lru_iter"],
     # the storage classes (gen/gen_storage.py -> lean/Gen/Storage.lean, equal to the storage machines of the model)
     "C15": ["FileStorage.read_eq", "FileStorage.write_eq", "MemoryStorage.read_eq", "MemoryStorage.write_eq", "MemMapStorage.read_eq",
-            "C15_source_mmap", "C15_source_write"],
+            "C15_source_mmap", "C15_source_write", "C15_source_equiv"],
     "C11": ["FileStorage.check_for_corruption_eq", "FileStorage.len_eq", "FileStorage.read_eq", "FileStorage.write_eq"],
     "C18": ["FileStorage.check_for_corruption_eq", "FileStorage.write_eq"],
 }
